@@ -266,6 +266,18 @@ func exec(c vh.Case, o *vh.Out) {
 			o.Emit("error")
 			continue
 		}
+		// Everything below is read from the PERSISTED DAG: the root is fetched again from the DAG service by
+		// the CID Layout returned (the in-memory node may differ from what was stored).
+		inMem := root
+		root, err = ds.Get(context.Background(), inMem.Cid())
+		if err != nil {
+			o.Fail("root-not-persisted", "the root %s returned by Layout cannot be fetched from the DAG service: %v", inMem.Cid(), err)
+			o.Emit("error")
+			continue
+		}
+		if !bytes.Equal(root.RawData(), inMem.RawData()) {
+			o.Fail("root-not-persisted", "the block stored under the root CID differs from the node Layout returned")
+		}
 		lastRoot, lastDS = root, ds
 		wk := &walk{ds: ds, leafDepths: map[int]bool{}, sizesOK: true}
 		recSize, content := wk.dump(root, 0)
